@@ -45,6 +45,31 @@ def run(ctx):
     if hung:
         raise vlib.Inconclusive("handlers still running after the script ended (see notes): %s" % ctx.notes[-1])
     tc.mech_pass(ctx, cases, pick, label="c02-relay")
+    # steered generation: orders that random walks rarely take
+    #  (a) the target half-closes first, the client sees it and only then uploads its data and half-closes
+    tf = [b for b in tc.gen(ctx, "Gen_TcpConn_C02TargetFirst.cfg", 2500 if q else 12000, seed=ctx.seed + 1) if tc.features(b)["trecv"] >= 1]
+    tpick = tc.select(tf, 40 if q else 400, lambda f: (min(f["trecv"], 3), min(f["crecv"], 3)), rng)
+    #  (b) the relay outlives the handshake deadline: the target speaks only after accept + timeout (real time: 600 ms
+    #      timeout; virtual time: the service's 59 s)
+    lt = [b for b in tc.gen(ctx, "Gen_TcpConn_C02Late.cfg", 4000 if q else 16000, seed=ctx.seed + 2) if tc.features(b)["crecv"] >= 1]
+    lpick = tc.select(lt, 40 if q else 300, lambda f: (min(f["trecv"], 2), min(f["crecv"], 2), f["ticks"]), rng)
+    if len(tpick) < 20 or len(lpick) < 20:
+        raise vlib.Inconclusive("steered generation produced too few behaviours (%d, %d)" % (len(tpick), len(lpick)))
+    tcases, _, _, h2 = tc.run_family(ctx, "C02_", tpick, label="c02-target-ends-first", timeout_ms=5000, par=8 if q else 12)
+    lcases, _, _, h3 = tc.run_family(ctx, "C02_", lpick, label="c02-relay-outlives-deadline", par=8, **tc.TIMED)
+    if h2 or h3:
+        raise vlib.Inconclusive("handlers still running after the script ended (see notes): %s" % ctx.notes[-1])
+    tc.mech_pass(ctx, tcases, tpick, label="c02-target-ends-first")
+    tc.mech_pass(ctx, lcases, lpick, label="c02-relay-outlives-deadline")
+    try:
+        from checks import tc_vt
+        vcases = tc_vt.run_vt(ctx, lpick, "c02-vt-late")
+        tc_vt.report(ctx, vcases, lpick, "c02-vt-relay-outlives-deadline", prefix="C02_")
+        tc.mech_pass(ctx, vcases, lpick, label="c02-vt-relay-outlives-deadline")
+    except ImportError:
+        ctx.cov["skipped"].append("virtual-time variant: not built")
+    pick = pick + tpick + lpick
+    cases = cases + tcases + lcases
     ntv = 0
     for b in pick:
         f = tc.features(b)
